@@ -490,17 +490,37 @@ func (cl *simCluster) shutdownAll() {
 }
 
 // bubble runs one scenario in its own synctest bubble. If goroutines of the scenario are still
-// blocked when it returns (a leak or a deadlock), synctest panics in this goroutine: that is
-// reported as a line instead of killing the harness.
+// blocked when it returns (a leak or a deadlock), synctest panics in the goroutine that called it:
+// that is reported as a line instead of killing the harness. If the scenario makes no progress at
+// all - virtual time cannot advance because a goroutine waits for a lock that is never released, the
+// signature of a deadlock inside the library - the watchdog (real time, outside the bubble) reports
+// the case as stuck and the harness moves on; the stuck bubble is abandoned.
 func bubble(t *testing.T, prop, id string, f func()) {
-	defer func() {
-		if rec := recover(); rec != nil {
-			msg := strings.ReplaceAll(strings.SplitN(fmt.Sprint(rec), "\n", 2)[0], " ", "_")
-			emit("%s leak id=%s msg=%s", prop, id, msg)
-		}
+	if stuckCases.Load() >= 2 {
+		return // two scenarios of this process already stalled: do not spend the time budget on more
+	}
+	done := make(chan struct{})
+	go func() {
+		defer close(done)
+		defer func() {
+			if rec := recover(); rec != nil {
+				msg := strings.ReplaceAll(strings.SplitN(fmt.Sprint(rec), "\n", 2)[0], " ", "_")
+				emit("%s leak id=%s msg=%s", prop, id, msg)
+			}
+		}()
+		synctest.Test(t, func(t *testing.T) { f() })
 	}()
-	synctest.Test(t, func(t *testing.T) { f() })
+	limit := time.Duration(envInt("VERIF_STUCK_S", 45)) * time.Second
+	select {
+	case <-done:
+	case <-time.After(limit):
+		emit("%s stuck id=%s after=%ds", prop, id, int(limit.Seconds()))
+		flushOut()
+		stuckCases.Add(1)
+	}
 }
+
+var stuckCases atomic.Int64
 
 func (cl *simCluster) since() time.Duration { return time.Since(cl.t0) }
 
